@@ -9,4 +9,9 @@ for id in $ids; do
   t0=$(date +%s)
   (cd /verif && ./check $id --tier $tier > /tmp/all_clean_$id.log 2>&1); rc=$?
   echo "$id exit=$rc wall=$(( $(date +%s) - t0 ))s $(grep -c '^VIOLATION' /tmp/all_clean_$id.log) violation-lines"
+  if [ "$tier" = thorough ]; then
+    # keep the thorough-tier record apart; evidence/<id>.json stays the quick-tier record that is committed
+    mkdir -p /verif/evidence_thorough && cp /verif/evidence/$id.json /verif/evidence_thorough/$id.json && cp /tmp/all_clean_$id.log /verif/evidence_thorough/$id.log
+    (cd /verif && git checkout -q -- evidence/$id.json)
+  fi
 done
